@@ -184,7 +184,19 @@ def coalitions(rng):
             r = [rng.choice(others)] + r[:-1] if others and r[0] in S else r
             r = list(dict.fromkeys(r))
         lines.append((m, r)); left -= m
-    return _finish(rng, n, s, [], [], lines)
+    wd = []
+    if rng.random() < 0.25:
+        # two withdrawn candidates written next to each other inside the rankings (also inside the coalition's block):
+        # withdrawn means absent, so the coalition stays solid
+        wd = [n + 1, n + 2]; n += 2
+        nl = []
+        for m, r in lines:
+            if rng.random() < 0.7:
+                k = rng.randint(0, len(r)); pair = wd[:] if rng.random() < 0.5 else wd[::-1]
+                r = r[:k] + pair + r[k:]
+            nl.append((m, r))
+        lines = nl
+    return _finish(rng, n, s, wd, [], lines)
 
 
 def big(rng, undeclared=False):
